@@ -60,6 +60,13 @@ const (
 
 	// DefaultSlidingWindowFilterSize is the default size of the sliding window filter.
 	DefaultSlidingWindowFilterSize = 256
+
+	// MaxSlidingWindowFilterSize is the maximum supported size of the sliding window filter.
+	//
+	// The filter's ring is sized to the next power of two above the window size. Sizes close to
+	// the top of the uint64 range overflow that computation into an empty ring, and even much
+	// smaller sizes are impossible to allocate. The cap corresponds to a 128 MiB ring per session.
+	MaxSlidingWindowFilterSize = 1 << 30
 )
 
 var (
